@@ -1,12 +1,15 @@
 import BSModel.Driver.Util
 import BSModel.Model.Heap
 import BSModel.Model.HeapSmooth
+import BSModel.Model.HeapCopy
 /-! protocol handler for edit histories on the pointer heap (C01, C02)
 
 `run <kinds> <ops> <what>`:
 * kinds: one letter per initial node id 0..N-1: t tag, r BeautifulSoup, s string, c preformatted string
 * ops, `;`-separated: `ap:P:A` `in:P:POS:A,A` `et:P:T` `el:P:A,A` `ib:X:A,A` `ia:X:A,A` `rw:X:A,A` `wr:X:W` `uw:X`
-  `ex:X` `cl:T` `de:X` `sm:T` `ss:T:K:V`; a node reference is a label: `t<id>` for tags, `s<v.v.v>` for strings
+  `ex:X` `cl:T` `de:X` `sm:T` `ss:T:K:V` `cp:X:N` (`copy.copy(X)`, Model/HeapCopy.lean: the nodes of the clone, in document
+  order, are LABELLED `t<N+k>` / `s<N+k>` from then on — an alias kept beside the heap, the texts of the copied strings stay what they
+  are; `N` is chosen by the harness above every id and every text in use); a node reference is a label: `t<id>` for tags, `s<v.v.v>` for strings
   (the string whose text is that label sequence; initially string id 7 has text `7`); an argument `A` is a label or
   `p<v.v>` for a plain `str` with that text
 * what: `ptr` (pointers after every step) or `all` (pointers and the seven iterators after every step)
@@ -28,84 +31,128 @@ def kindOf : Char → Kind
 
 def initHeap (kinds : String) : Heap := Heap.init (kinds.toList.map kindOf)
 
-def label (h : Heap) (i : Nat) : String :=
-  if (h.kind i).isTag then s!"t{i}" else "s" ++ ".".intercalate ((h.val i).map toString)
+/-- labels of the nodes of copies: node id ↦ the number `n` of its label `t<n>` / `s<n>` (a copied string has the text of its
+    original, so its text cannot identify it; a copied tag has no id the harness could know) -/
+abbrev Alias := List (Nat × Nat)
 
-def labelO (h : Heap) : Option Nat → String
+def aliasOf (al : Alias) (i : Nat) : Option Nat := (al.find? (fun p => p.1 == i)).map (·.2)
+
+def labelA (al : Alias) (h : Heap) (i : Nat) : String :=
+  match aliasOf al i with
+  | some n => (if (h.kind i).isTag then "t" else "s") ++ toString n
+  | none => if (h.kind i).isTag then s!"t{i}" else "s" ++ ".".intercalate ((h.val i).map toString)
+
+def labelOA (al : Alias) (h : Heap) : Option Nat → String
   | none => "-"
-  | some i => label h i
+  | some i => labelA al h i
 
-def labels (h : Heap) (l : List Nat) : String := if l.isEmpty then "-" else ".".intercalate (l.map (label h))
+def labelsA (al : Alias) (h : Heap) (l : List Nat) : String := if l.isEmpty then "-" else ".".intercalate (l.map (labelA al h))
 
-/-- resolve a label to a node id: tags by id, strings by text (the most recently allocated match) -/
-def resolve (h : Heap) (s : String) : Option Nat :=
-  if s.startsWith "t" then (s.drop 1).toString.toNat?
+/-- resolve a label to a node id: the alias of a copied node first; otherwise tags by id, strings by text (the most recently
+    allocated match among the nodes that have no alias) -/
+def resolveA (al : Alias) (h : Heap) (s : String) : Option Nat :=
+  if s.startsWith "t" then
+    match (s.drop 1).toString.toNat? with
+    | none => none
+    | some n =>
+      match al.find? (fun p => p.2 == n && (h.kind p.1).isTag) with
+      | some p => some p.1
+      | none => some n
   else if s.startsWith "s" then
     let v := natList "." (s.drop 1).toString
-    ((List.range h.next).reverse).find? (fun i => !(h.kind i).isTag && h.val i == v)
+    let byAlias : Option (Nat × Nat) := match v with
+      | [n] => al.find? (fun (p : Nat × Nat) => p.2 == n && !(h.kind p.1).isTag)
+      | _ => none
+    match byAlias with
+    | some p => some p.1
+    | none => ((List.range h.next).reverse).find? (fun i => !(h.kind i).isTag && h.val i == v && (aliasOf al i).isNone)
   else none
 
-def parseArg (h : Heap) (s : String) : Option Arg :=
+def parseArgA (al : Alias) (h : Heap) (s : String) : Option Arg :=
   if s.startsWith "p" then some (.plain (natList "." (s.drop 1).toString))
-  else (resolve h s).map Arg.node
+  else (resolveA al h s).map Arg.node
 
-def parseArgs (h : Heap) (s : String) : Option (List Arg) :=
-  (splitNE "," s).mapM (parseArg h)
+def parseArgsA (al : Alias) (h : Heap) (s : String) : Option (List Arg) :=
+  (splitNE "," s).mapM (parseArgA al h)
 
-def parseOp (h : Heap) (s : String) : Option Op :=
+def parseOpA (al : Alias) (h : Heap) (s : String) : Option Op :=
   match s.splitOn ":" with
-  | ["ap", p, a] => do let p ← resolve h p; let a ← parseArg h a; pure (.append p a)
+  | ["ap", p, a] => do let p ← resolveA al h p; let a ← parseArgA al h a; pure (.append p a)
   | ["in", p, pos, as] => do
-    let p ← resolve h p; let as ← parseArgs h as
+    let p ← resolveA al h p; let as ← parseArgsA al h as
     -- a Python integer: negative positions count from the end, as in `list.insert` (Model/Heap.lean `normPos`, `insertZ`)
     pure (.insert p (normPos (h.kids p).length pos.toInt!) as)
-  | ["et", p, t] => do let p ← resolve h p; let t ← resolve h t; pure (.extendTag p t)
-  | ["el", p, as] => do let p ← resolve h p; let as ← parseArgs h as; pure (.extendList p as)
-  | ["ib", x, as] => do let x ← resolve h x; let as ← parseArgs h as; pure (.insertBefore x as)
-  | ["ia", x, as] => do let x ← resolve h x; let as ← parseArgs h as; pure (.insertAfter x as)
-  | ["rw", x, as] => do let x ← resolve h x; let as ← parseArgs h as; pure (.replaceWith x as)
-  | ["wr", x, w] => do let x ← resolve h x; let w ← resolve h w; pure (.wrap x w)
-  | ["uw", x] => do let x ← resolve h x; pure (.unwrap x)
-  | ["ex", x] => do let x ← resolve h x; pure (.extract x)
-  | ["cl", t] => do let t ← resolve h t; pure (.clear t)
-  | ["de", x] => do let x ← resolve h x; pure (.decompose x)
-  | ["cd", t] => do let t ← resolve h t; pure (.clearDecompose t)
-  | ["sm", t] => do let t ← resolve h t; pure (.smooth t)
+  | ["et", p, t] => do let p ← resolveA al h p; let t ← resolveA al h t; pure (.extendTag p t)
+  | ["el", p, as] => do let p ← resolveA al h p; let as ← parseArgsA al h as; pure (.extendList p as)
+  | ["ib", x, as] => do let x ← resolveA al h x; let as ← parseArgsA al h as; pure (.insertBefore x as)
+  | ["ia", x, as] => do let x ← resolveA al h x; let as ← parseArgsA al h as; pure (.insertAfter x as)
+  | ["rw", x, as] => do let x ← resolveA al h x; let as ← parseArgsA al h as; pure (.replaceWith x as)
+  | ["wr", x, w] => do let x ← resolveA al h x; let w ← resolveA al h w; pure (.wrap x w)
+  | ["uw", x] => do let x ← resolveA al h x; pure (.unwrap x)
+  | ["ex", x] => do let x ← resolveA al h x; pure (.extract x)
+  | ["cl", t] => do let t ← resolveA al h t; pure (.clear t)
+  | ["de", x] => do let x ← resolveA al h x; pure (.decompose x)
+  | ["cd", t] => do let t ← resolveA al h t; pure (.clearDecompose t)
+  | ["sm", t] => do let t ← resolveA al h t; pure (.smooth t)
   | ["ss", t, k, v] => do
-      let t ← resolve h t
+      let t ← resolveA al h t
       pure (.setString t (match k with | "c" => .pre | _ => .str) (natList "." v))
   | ["se", t, s, v] => do
       -- `.string = <a string object of the forest>`: the new string takes the CLASS of the argument (read from the heap) and is new
-      let t ← resolve h t
-      let s ← resolve h s
+      let t ← resolveA al h t
+      let s ← resolveA al h s
       match h.kind s with
       | .str => pure (.setString t .str (natList "." v))
       | .pre => pure (.setString t .pre (natList "." v))
       | _ => none
   | _ => none
 
+/-! the alias-free forms (every protocol without copies; used by Driver/C13.lean as well) -/
+def label (h : Heap) (i : Nat) : String := labelA [] h i
+def labelO (h : Heap) (o : Option Nat) : String := labelOA [] h o
+def labels (h : Heap) (l : List Nat) : String := labelsA [] h l
+def resolve (h : Heap) (s : String) : Option Nat := resolveA [] h s
+def parseArg (h : Heap) (s : String) : Option Arg := parseArgA [] h s
+def parseArgs (h : Heap) (s : String) : Option (List Arg) := parseArgsA [] h s
+def parseOp (h : Heap) (s : String) : Option Op := parseOpA [] h s
+
 def errName : Err → String
   | .valueError => "ValueError" | .crash => "crash" | .notImplemented => "NotImplementedError" | .excluded => "excluded"
 
-def dumpNode (h : Heap) (i : Nat) (iters : Bool) : String :=
-  let base := s!"{label h i} {labelO h (h.parent i)} {labelO h (h.ps i)} {labelO h (h.ns i)} {labelO h (h.pe i)} {labelO h (h.ne i)} {labels h (h.kids i)}"
+def dumpNode (al : Alias) (h : Heap) (i : Nat) (iters : Bool) : String :=
+  let base := s!"{labelA al h i} {labelOA al h (h.parent i)} {labelOA al h (h.ps i)} {labelOA al h (h.ns i)} {labelOA al h (h.pe i)} {labelOA al h (h.ne i)} {labelsA al h (h.kids i)}"
   if iters then
-    let d := match descendants h i with | .ok l => labels h l | .error _ => "crash"
-    s!"{base} {d} {labels h (nextElements h i)} {labels h (previousElements h i)} {labels h (nextSiblings h i)} {labels h (previousSiblings h i)} {labels h (parents h i)}"
+    let d := match descendants h i with | .ok l => labelsA al h l | .error _ => "crash"
+    s!"{base} {d} {labelsA al h (nextElements h i)} {labelsA al h (previousElements h i)} {labelsA al h (nextSiblings h i)} {labelsA al h (previousSiblings h i)} {labelsA al h (parents h i)}"
   else base
 
-def dump (h : Heap) (iters : Bool) : String :=
-  ",".intercalate ((List.range h.next).map (fun i => dumpNode h i iters))
+def dump (al : Alias) (h : Heap) (iters : Bool) : String :=
+  ",".intercalate ((List.range h.next).map (fun i => dumpNode al h i iters))
 
-def runOps (iters : Bool) : Heap → List String → List String
-  | _, [] => []
-  | h, o :: os =>
-    match parseOp h o with
-    | none => ["bad-op"]
-    | some op =>
-      match step h op with
-      | .error e => ["err:" ++ errName e]
-      | .ok h1 => ("ok " ++ dump h1 iters) :: runOps iters h1 os
+/-- `cp:X:N`: `copy.copy(X)`; the `k`-th node of the clone in document order (= the `k`-th id allocated) is labelled `N+k` -/
+def runCopy (al : Alias) (h : Heap) (x n : String) : Option (Except Err (Alias × Heap)) := do
+  let x ← resolveA al h x
+  let n ← n.toNat?
+  match step2 h (.copy x) with
+  | .error e => pure (.error e)
+  | .ok h1 => pure (.ok ((List.range (h1.next - h.next)).map (fun k => (h.next + k, n + k)) ++ al, h1))
+
+def runOps (iters : Bool) : Alias → Heap → List String → List String
+  | _, _, [] => []
+  | al, h, o :: os =>
+    match o.splitOn ":" with
+    | ["cp", x, n] =>
+      match runCopy al h x n with
+      | none => ["bad-op"]
+      | some (.error e) => ["err:" ++ errName e]
+      | some (.ok (al1, h1)) => ("ok " ++ dump al1 h1 iters) :: runOps iters al1 h1 os
+    | _ =>
+      match parseOpA al h o with
+      | none => ["bad-op"]
+      | some op =>
+        match step h op with
+        | .error e => ["err:" ++ errName e]
+        | .ok h1 => ("ok " ++ dump al h1 iters) :: runOps iters al h1 os
 
 def itemStr (next : Nat) : IItem → String
   | (k, .other _) => s!"o{k}"
@@ -150,7 +197,7 @@ def smoothReport (kinds vals edges t : String) : String :=
 
 def handle : List String → String
   | ["run", kinds, ops, what] =>
-    " | ".intercalate (runOps (what == "all") (initHeap kinds) (splitNE ";" ops))
+    " | ".intercalate (runOps (what == "all") [] (initHeap kinds) (splitNE ";" ops))
   | ["smooth", kinds, vals, edges, t] => smoothReport kinds vals edges t
   | _ => "bad-op"
 
